@@ -298,6 +298,24 @@ def check_mg(f, e0, eps):
         v = complex(m.maxwell_garnett(ff, e0, eps))
         if rel(v, want) > RT:
             out.append(("mg:limit", f"maxwell_garnett({ff},{e0},{eps})={v}", v, want))
+    # the homogeneous medium (both phases alike) is a medium too: every formula returns that permittivity, as Python and as numpy numbers
+    for z in (complex(e0), np.complex128(e0)):
+        for name, fn in [("maxwell_garnett_for_spheres", lambda: m.maxwell_garnett_for_spheres(f, z, z)), ("maxwell_garnett", lambda: m.maxwell_garnett(f, z, z)),
+                         ("hashin-shtrikman", lambda: permittivity_hashin_shtrikman(f, z, z)), ("polder_van_santen", lambda: m.polder_van_santen(f, z, z))]:
+            try:
+                v = complex(fn())
+            except Exception as e:  # noqa
+                out.append(("homogeneous:" + name, f"{name}({f}, {z!r}, {z!r}) raises {type(e).__name__}: {e}", type(e).__name__, complex(e0)))
+                continue
+            if not (np.isfinite(v.real) and np.isfinite(v.imag)) or rel(v, complex(e0)) > RT:
+                out.append(("homogeneous:" + name, f"{name}({f}, {z!r}, {z!r}) = {v}", v, complex(e0)))
+    # `bruggeman` is the documented synonym of polder_van_santen, for every way of giving the inclusion shapes
+    if hasattr(m, "bruggeman"):
+        for kw in ({}, {"inclusion_shape": "random_needles"}, {"inclusion_shape": ("spheres", "random_needles"), "mixing_ratio": 0.3},
+                   {"inclusion_shape": {"spheres": 0.3, "random_needles": 0.7}}):
+            a1, b1 = complex(m.bruggeman(f, e0, eps, **kw)), complex(m.polder_van_santen(f, e0, eps, **kw))
+            if rel(a1, b1) > RT:
+                out.append(("pvs:bruggeman-synonym", f"bruggeman({f}, {e0}, {eps}, {kw}) = {a1} but polder_van_santen gives {b1}", a1, b1))
     return out
 
 
